@@ -1414,11 +1414,15 @@ fn run_fallback(acc: &mut Acc, py: &mut PyRef, c: &FbCase) {
 
 // ------------------------------------------------------------------------------------------------
 
-fn variants(rng: &mut Rng, account: &str, pw: &str, full: bool) -> Vec<(bool, bool, Input)> {
+fn variants(rng: &mut Rng, account: &str, pw: &str, full: bool, quick: bool) -> Vec<(bool, bool, Input)> {
     let mut v = Vec::new();
     if full {
         for ufp in [false, true] {
             for iuu in [false, true] {
+                // quick tier: the two diagonal option combinations only
+                if quick && ufp != iuu {
+                    continue;
+                }
                 v.push((ufp, iuu, Input::cooperative(account, pw)));
             }
         }
@@ -1434,7 +1438,7 @@ pub fn run(args: Args) {
     let mut run = Run::new(
         args.clone(),
         "fault_enumeration",
-        "daemon part: every reply script of length <= L (quick 2, thorough 3) over a 27-symbol reply alphabet (decisions, 8 prompts, 8 wrong reply kinds, 5 malformed frames, 2 bundled writes), each also cut short by each of 6 connection faults, played under 4 option combinations with a cooperative conversation + 1 random conversation, plus random longer scripts and account-phase replies; fallback part: random shadow files (supported / unsupported / locked / empty / corrupted fields, expiry around now, missing lines) x random user input; non-trivial = the module talked to the daemon (daemon part) or the account has a shadow line (fallback part); enumerated scripts are distinct by construction, random cases by full description",
+        "daemon part: every reply script of length <= L (quick 2, thorough 3) over a 27-symbol reply alphabet (decisions, 8 prompts, 8 wrong reply kinds, 5 malformed frames, 2 bundled writes), each also cut short by each of 6 connection faults, played under 4 (quick: 2) use_first_pass x ignore_unknown_user combinations with a cooperative conversation + 1 random conversation, plus random longer scripts and account-phase replies; fallback part: random shadow files (supported / unsupported / locked / empty / corrupted fields, expiry around now, missing lines) x random user input; non-trivial = the module talked to the daemon (daemon part) or the account has a shadow line (fallback part); enumerated scripts are distinct by construction, random cases by full description",
     );
     run.assume("RequestOptions::Verif{socket: Some(..)} stands for a reachable daemon, socket: None for an unreachable one (the production connect-or-fallback decision in RequestOptions::Main is not exercised)");
     run.assume("python3 crypt (system libxcrypt) is the reference for 'the hash verifies the password'");
@@ -1470,7 +1474,7 @@ pub fn run(args: Args) {
     run.extra("alphabet", json!({"non_fault": NONFAULT.iter().map(|s| format!("{s:?}")).collect::<Vec<_>>(), "faults": FAULTS.iter().map(|s| format!("{s:?}")).collect::<Vec<_>>()}));
     let scripts = &scripts;
     let lh = &local_hash;
-    let random_scripts: u64 = tier.pick(3_000, 40_000);
+    let random_scripts: u64 = tier.pick(2_000, 40_000);
     let acct_cases: u64 = tier.pick(600, 6_000);
     run.parallel(args.workers, |w, n| {
         let mut acc = Acc::new();
@@ -1481,7 +1485,7 @@ pub fn run(args: Args) {
             let script = &scripts[idx];
             let (spins, _sleeps) = cost_class(script);
             // scripts on which the client busy-waits for its whole timeout get one conversation, the rest five
-            for (ufp, iuu, input) in variants(&mut rng, "alice", coop_pw, !spins) {
+            for (ufp, iuu, input) in variants(&mut rng, "alice", coop_pw, !spins, tier == Tier::Quick) {
                 win.submit(
                     &mut acc,
                     Scenario { entry: Entry::Authenticate, script: script.clone(), acct_reply: None, use_first_pass: ufp, ignore_unknown_user: iuu, input, enumerated: true },
@@ -1553,7 +1557,7 @@ pub fn run(args: Args) {
 
     run.extra("daemon_part_wall_s", json!(run.elapsed_s()));
     // ---- fallback part
-    let fb_cases: u64 = tier.pick(6_000, 80_000);
+    let fb_cases: u64 = tier.pick(5_000, 80_000);
     run.parallel(args.workers, |w, n| {
         let mut acc = Acc::new();
         let mut rng = Rng::new(kvcore::rng::mix(seed, w as u64, 4343));
